@@ -63,6 +63,11 @@ CLAIMS["C17"]["text"] = ("Theorems C17_read_pure / C17_reads_pure: in the model 
     "buffered: C07_readonly_silent_* (an entry that was only read is never written by any flush). Tied by correspondence, an oracle that re-reads the resource after every read, and the buffered twin oracle "
     "(bytes, inode and mtime_ns of files on which no mutator was called are unchanged across all contexts).")
 
+CLAIMS["C08"] = dict(
+    text="Theorems over the file-operation model SC/FS.lean (committed content + pending bytes that a crash may have persisted to any prefix; os.replace atomic and carrying the pending bytes): C08_atomic_save (every crash point of open-tmp/write/close/replace leaves the target wholly old or wholly new, any blob, any disk), C08_flush_atomic (the same for every file of a flush of any number of files, by induction), C08_unserialisable_harmless, and two witnesses that the crash model is strong enough to break plain mode and replace-before-close. Tie: the traced mutating file operations of 13 real save scenarios (both buffer strategies, forced and exit flushes, write_concern, threading off) must equal the model's saveSteps, serialisation first; search: the process is killed at every file operation x write prefixes x (bytes flushed / still buffered), then files, reopen and a later save are checked.",
+    design_ref="§5 C08", technique="Lean 4 theorems over a crash model of file operations + trace correspondence + crash-point enumeration (fault injection) on the real save paths",
+    note=COMMON_NOTE + "Assumed: os.replace atomic within a directory; process crash only (no fsync, OS/power failure outside the claim); uuid4 names do not collide. The crash enumeration covers file-operation boundaries and write prefixes, not every Python line.")
+
 NOT_YET = {}
 
 NOTES = ("All checks share one pipeline (./check): regenerate lean/SC/Generated/Tables.lean from /repo, lake build the model driver and the property's "
